@@ -43,6 +43,13 @@ RULE = ('The handler taking over a plugin request answers in explicit '
         'carrying the message or VersionMismatch for "Outdated", never '
         'silent (L6). Non-trivial: >= 2 optional steps or a disconnect; '
         'distinct by case.')
+RULE += (' ' +
+         'Added in later rounds: the login as the second session of its '
+         'Connection object (prior session with another threshold, reconnect '
+         'from a handler or by the user); plugin take-over forms; four DER '
+         'encodings of the server key; non-ASCII and dash-prefixed server '
+         'ids; a session service that answers the first join attempts with '
+         'errors. ')
 LEVEL_TEXT = ('Model-based testing of the login state machine over '
               'generated server scripts x protocol eras x client '
               'configurations with independent crypto oracles.')
